@@ -77,6 +77,14 @@ CHECKS = {
              "applies exp, log, sqrt, isqrt, pow for 11 exponents and a user function with Auto, Eig, Eigh, Lanczos, "
              "Arnoldi to vectors and multi-column operands, and checks sqrt twice = A and f(A) 0 = 0.",
         design="5/C09", technique="TLC-verified exact spectral oracle over enumerated trees + spec-to-code replay"),
+    "C10": dict(
+        text="The spectrum of every enumerated tree (eigenvalues with multiplicities, exact spectral projectors) comes "
+             "from TLC's structural spectral decomposition, verified against the denoted matrix in every state; replay "
+             "calls eig for every k, which in {LM, SM} and every admissible algorithm (dense, Lanczos / Arnoldi with "
+             "caps n and n+3, power iteration, the structural Identity / Diagonal / Triangular rules), eigmax and "
+             "eigmin, and requires the returned values to be exactly the k eigenvalues of largest / smallest "
+             "magnitude, A v = lambda v with v != 0, independence and (self-adjoint) orthonormality.",
+        design="5/C10", technique="TLC-verified exact spectral oracle over enumerated trees + spec-to-code replay"),
     "C11": dict(
         text="TLC decides exactly which enumerated trees are Hermitian positive definite (leading principal minors) "
              "resp. non-singular and provides their exact matrix; replay requires cholesky(A) lower triangular with "
